@@ -179,7 +179,48 @@ pub fn cases(opts: &Opts) -> Vec<Case> {
         let keep = if i % 3 == 2 { None } else { Some(proj.clone()) };
         out.push(Case { name, files: proj.render(), proj: keep, gen_index: Some(i) });
     }
+    // single-file programs with many compiler-generated helper items (Ref / array / tuple /
+    // closure-environment / dyn types, several instantiations of generic functions): the order
+    // in which those are emitted must not depend on hash seeds either
+    let nconc = opts.n(150, 2000);
+    for i in 0..nconc {
+        let mut p = Prng::derive(opts.seed, i as u64, "c13-conc");
+        let cfg = crate::genp::conc::ConcCfg::swarm(&mut p);
+        let mut text = crate::genp::conc::generate(&mut p, &cfg);
+        text.push_str(&helper_zoo(&mut p));
+        let mut files = Files::new();
+        files.insert("main.gom".to_string(), text.into_bytes());
+        out.push(Case { name: format!("conc/{i}"), files, proj: None, gen_index: None });
+    }
     out
+}
+
+/// Extra functions using a random selection, in random order, of Ref / array / tuple types.
+fn helper_zoo(p: &mut Prng) -> String {
+    let mut lines: Vec<String> = vec![
+        "    let za = ref(true);".into(),
+        "    let zb = ref(\"s\");".into(),
+        "    let zc = ref(ref(1));".into(),
+        "    let zd = [1, 2];".into(),
+        "    let ze = [true, false, true];".into(),
+        "    let zf = [\"a\", \"b\", \"c\", \"d\"];".into(),
+        "    let zg = (1, true);".into(),
+        "    let zh = (\"x\", 2, false);".into(),
+        "    let zi = ((1, 2), \"y\");".into(),
+        "    let zj = ref((1, 2));".into(),
+        "    let zk = |u: bool| u;".into(),
+        "    let zl = |u: string| u + \"!\";".into(),
+        "    let zm = ref([1, 2, 3]);".into(),
+    ];
+    p.shuffle(&mut lines);
+    let n = 3 + p.usize(lines.len() - 2);
+    let mut s = String::from("\nfn zoo() -> unit {\n");
+    for l in lines.into_iter().take(n) {
+        s.push_str(&l);
+        s.push('\n');
+    }
+    s.push_str("    ()\n}\n");
+    s
 }
 
 /// A failing link must fail the same way in every process: build everything, change the
